@@ -37,6 +37,15 @@ def check(ix, rep):
     # one node per occurrence: the parser's dispatch hands back the node built for the tree it was given
     from sa.rules import parserrules as _Pfresh
     rep.floor('parser dispatch methods checked for node sharing', _Pfresh.check_dispatch_transparent(ix, rep), 2)
+    # get_value(v) of an input variable returns the data supplied: the data-entry functions store the supplied value or a container copy of it
+    from sa.rules import truthy as _te12
+    _ne12 = 0
+    for _m in M.standard_monitors(ix):
+        _de = ix.resolve_method(_m.cls, 'set_variable_to_ast_from_dataset')
+        if _de is not None:
+            rep.analysed(_de)
+            _ne12 += _te12.check_entry_verbatim(ix, rep, _de, _m.kind)
+    rep.floor('data-entry stores', _ne12, 4)
     explanation = (
         'R-STORE: in the offline visit wrappers and in visitBinary/visitUnary/visitLeaf of the online update visitor every return is '
         'dominated by results[node] = <returned value> (per-function CFG + dominators); the memo-hit path records results[node] too; '
